@@ -120,7 +120,9 @@ def harness_schemas():
     d = os.path.join(vlib.VERIF, "schemas")
     j = lambda *fs: [os.path.join(d, f) for f in fs]
     return [S("vt", "harness", d, j("vt.yang", "vt-aug.yang", "vt-undef.yang")),
-            S("vtoc", "harness", d, j("openconfig-vtoc.yang"), both=True)]
+            S("vtoc", "harness", d, j("openconfig-vtoc.yang"), both=True),
+            # a module split into submodules, all of which augment the same nodes
+            S("vtsub", "harness", d, j("vt-subbase.yang", "vt-sub.yang"))]
 
 
 def corpus_schemas():
@@ -392,10 +394,10 @@ def plan(r, work, tier, seed):
     names = list(FLAGSETS)
     cfgs = []
     if tier != "thorough":
-        vt, vtoc = hs
+        vt, vtoc, vtsub = hs
         byid = {s["id"]: s for s in cs}
         fixed = [(vt, "U-simple"), (vt, "U-wrapper"), (vt, "proto-flat"), (vtoc, "C-prefcfg-split"), (vtoc, "P-module"),
-                 (vtoc, "proto-compress-hier-nodedup")]
+                 (vtoc, "proto-compress-hier-nodedup"), (vtsub, "U-simple"), (vtsub, "U-simple-split")]
         cfgs += fixed
         # rotating corpus picks
         big = [x for x in ("schemaops-c", "schemaops-u", "it-uncompressed", "demo-interfaces", "demo-uncompressed", "demo-rib-bgp",
